@@ -11,6 +11,7 @@ var c06PathTemplates = [...]string{
 	`[?(@.a?1)]`, `[?(@.a ?? 1)]`, `[?(?@.a)]`, `[?(@.a == ?)]`, `[?(@.a == '?')]`, `[?(1 ? 2 ? 3)]`,
 	`[?(length(@.?) > 1)]`, `[?(@.a in [?])]`, `[?@.a?]`, `[?(@.a ?= [1,2])]`, `[?((@.a)?(@.b))]`,
 	`[?(@.a has ?)]`, `[?(@.a exists ?rue)]`, `[?(!?)]`, `[?(-?)]`, `$[?(@[?] == 1)]`, `$[?(@.a == 1.?)]`, `$[?(@.a == "?\?")]`,
+	`$[(?)]`, `[(??)]`, `$.a[(@.?)]`, `['?]'][(?`, `$[(@.a ? 1)]`, `[?1<(?)]`, `[?!(?)]`, `[?(1)?2]`, `[?count((?))]`, `[?(?(@.x))]`,
 }
 
 // the data parsed paths are evaluated on
